@@ -104,7 +104,7 @@ var props = map[string]PropMeta{
 		QuickS: 25, ThoroughS: 480, QuickWorkers: 6,
 	},
 	"C04": {
-		Level: "exploration",
+		Level: "fault_enumeration",
 		Rule: "histories as in C01 (role x trust x user plan incl. local close x up to 32 peer events, 10% deviant) combined with one injected transport write failure: variant a<k> = the k-th write fails and the transport reports closed afterwards (what ws does), b<k> = only the k-th write fails (what the interface permits); k enumerated 1..W+2 where W = writes of a fault-free handshake; oracle = reference SHIP state graph (written from the specification), phase order, terminal-is-final, transport closed, no activity in a 6 minute input-free period after a terminal outcome; " +
 			"non-trivial = the injected failure fired (or fault-free variant); distinct = distinct (variant, configuration, set of (state, input class)) tuples",
 		Real: ship1Real, Stub: ship1Stub,
